@@ -180,7 +180,11 @@ def run(tier, seed):
         if c["f"]["k"] == "lam" and c["f"]["v"] not in ("dec", "pyd", "pym") and c["form"] not in ("while", "scanwhile") and source(c) not in bad_src:
             groups.setdefault((c["form"], c["ar"], json.dumps(c["a"], sort_keys=True), json.dumps(c["b"], sort_keys=True)), []).append(c)
     nreb = 0
+    def numeric(v):
+        return v["t"] in ("i", "r") or (v["t"] == "l" and all(numeric(q) for q in v["v"]))
+
     for (form, ar, _, _), cs in groups.items():
+        cs = [c for c in cs if numeric(c["exp"])]          # the expression is an operand of 0+...: its value must be numeric
         if len(cs) < 2 or nreb >= 400:
             continue
         c1, c2 = cs[0], cs[1]
